@@ -61,10 +61,12 @@ FmtUnit(p) ==
   LET leaf == [type |-> <<"string">>, format |-> p[1]]
       xs == IF p[2] = "item" THEN [type |-> <<"array">>, items |-> leaf] ELSE leaf
       v == IF p[2] = "item" THEN JArr(<<JFmt(p[1]), JFmt(p[1])>>) ELSE JFmt(p[1])
+      fvs == SetToSeq(FmtVariants(p[1]))
+      vdoc(i) == JObj(<<KV("x", IF p[2] = "item" THEN JArr(<<JFmt(p[1]), JFmtV(p[1], fvs[i])>>) ELSE JFmtV(p[1], fvs[i]))>>)
   IN [prop |-> "C02", fam |-> "fmt", par |-> p[1] \o "/" \o p[2],
       schema |-> ("type" :> <<"object">>) @@ ("properties" :> <<[k |-> "x", s |-> xs]>>)
                  @@ (IF p[2] = "opt" THEN <<>> ELSE "required" :> <<"x">>),
-      defs |-> <<>>, docs |-> <<JObj(<<KV("x", v)>>)>> \o (IF p[2] = "opt" THEN <<JObj(<<>>)>> ELSE <<>>),
+      defs |-> <<>>, docs |-> <<JObj(<<KV("x", v)>>)>> \o (IF p[2] = "opt" THEN <<JObj(<<>>)>> ELSE <<>>) \o [i \in DOMAIN fvs |-> vdoc(i)],
       nobuild |-> <<>>]
 
 (* ---- big / deep ---- *)
